@@ -835,7 +835,7 @@ End Proofs.
 (* Concrete instance: two samplers, bootstrap sampler at index 1, a scripted agent (k-th policy call returns
    script[k mod 5]), losses halving from batch to batch. *)
 Definition lossl (l : list Q) : nat -> Q := fun k => nth k l 0%Q.
-Definition w_agent : cagent := mkag [0; 1; 1; 0; 0] 0 false 0%Q [] [] 2.
+Definition w_agent : cagent := mkag [0; 1; 1; 0; 0] 0 false 0%Q [] [] 2 [].
 Definition w_losses : list Q := [256#1; 128#1; 64#1; 32#1; 16#1; 8#1]%Q.
 Definition w_old := step_old cagent c_policy c_learn 2 1 (lossl w_losses).
 Definition w_new := step cagent c_policy c_learn 2 1 (lossl w_losses).
@@ -905,7 +905,7 @@ Lemma old_first_session_pairing_bounded :
           [0; 1; 2; 3; 4] = true.
 Proof. vm_compute. reflexivity. Qed.
 
-Definition w_greedy : cagent := mkag [] 0 true (1#2)%Q [1%Q; 1%Q] [(false, 0)] 2.
+Definition w_greedy : cagent := mkag [] 0 true (1#2)%Q [1%Q; 1%Q] [(false, 0)] 2 [0; 0].
 Definition exlog (s : state cagent) : list nat := map (fun e => snd (fst e)) (rev (executed s)).
 Lemma old_executed_independent_bounded_2x2 :
   let runs := all_runs cagent w_old 80 (init cagent [2; 2] w_greedy) in
@@ -920,3 +920,30 @@ Lemma new_all_schedules_bounded_2x2x2 :
   forallb (fun s => is_final cagent s && list_eqb Nat.eqb (exlog s) [1; 0; 1; 0; 0; 1] &&
                     Nat.eqb (length (learned s)) 5 && Nat.eqb (length (aq s)) 0 && Nat.eqb (length (oq s)) 0) runs = true.
 Proof. vm_compute. split; reflexivity. Qed.
+
+(* ====================================================================== Part 6: rejected requests *)
+(* start_session on a running session / end_session outside a session (rl_scheduler.py:130-132, 167-169): the request performs one
+   synchronisation operation, the read of the flag, and raises ValueError; nothing but the calibration thread's program counter
+   changes - queues, flag, reference losses, the agent's thread and state, the logs are as before (both protocols).  The harness
+   drives such requests on the real scheduler and checks that the rest of the run is a run of `step` without them. *)
+Lemma rejected_request_moves_nothing : forall (AS : Type) policy nsam halton loss rep (s s' : state AS),
+  (mpc s = MReadS /\ flag s = false) \/ (mpc s = MReadE /\ flag s = true) ->
+  m_step AS policy nsam halton loss rep s = Some s' -> s' = set_mpc AS MErr s.
+Proof.
+  intros AS policy nsam halton loss rep s s' [[Hp Hf]|[Hp Hf]] H; unfold m_step in H; rewrite Hp, Hf in H; inversion H; reflexivity.
+Qed.
+Lemma rejected_request_state : forall (AS : Type) (s : state AS),
+  let s' := set_mpc AS MErr s in
+  aq s' = aq s /\ oq s' = oq s /\ flag s' = flag s /\ apc s' = apc s /\ cbl s' = cbl s /\ best s' = best s /\ ast s' = ast s /\
+  executed s' = executed s /\ learned s' = learned s /\ bidx s' = bidx s.
+Proof. intros. unfold s', set_mpc. simpl. repeat split. Qed.
+Lemma rejected_request_full : forall (AS : Type) policy nsam halton loss rep (s s' : state AS),
+  (mpc s = MReadS /\ flag s = false) \/ (mpc s = MReadE /\ flag s = true) ->
+  m_step AS policy nsam halton loss rep s = Some s' ->
+  s' = set_mpc AS MErr s /\
+  aq s' = aq s /\ oq s' = oq s /\ flag s' = flag s /\ apc s' = apc s /\ cbl s' = cbl s /\ best s' = best s /\ ast s' = ast s /\
+  executed s' = executed s /\ learned s' = learned s /\ bidx s' = bidx s.
+Proof.
+  intros AS policy nsam halton loss rep s s' H E. rewrite (rejected_request_moves_nothing AS policy nsam halton loss rep s s' H E).
+  split; [reflexivity | exact (rejected_request_state AS s)].
+Qed.
